@@ -194,7 +194,13 @@ def build(b, t, names):
         r = b.find_or_add(b.vars[names[j]], lo, hi)
         memo[key] = r
         return r
-    return rec(t, 0)
+    # the primitive find_or_add is the source of the reordering signal (known finding D1-primitive), so the
+    # harness's own construction route runs with requests suspended
+    last, b._last_len = b._last_len, None
+    try:
+        return rec(t, 0)
+    finally:
+        b._last_len = last
 
 
 def order_views_ok(b):
